@@ -22,7 +22,7 @@ package main
 //   file content is a function of (visible path, size): ioContent; the copy on the base of a file that
 //   is on both layers holds other bytes of another length.
 //   query ::= fstest | open N | readdir N | page N <n,n,..> | readfile N | read N <chunk> | readat N <off> <n>
-//           | seek N <off> <whence> <n> | stat N | glob P | sub D <open|readdir|readfile|stat|glob> N
+//           | seek N <pre> <off> <whence> <n> | stat N | glob P | sub D <open|readdir|readfile|stat|glob> N
 //           | from <stat|open|readfile|readdir|names> N | from mut <Op> N | from hmut N <HOp>       (N, P, D hex)
 // Canonical results: see the ioX functions.  Oracles (Go side, against the KNOWN tree and the generic
 // io/fs helpers on a wrapper that hides every optional interface; never against the model):
@@ -701,7 +701,7 @@ func (w *ioWorld) qReadAt(name string, off, n int) string {
 	return fmt.Sprintf("data:%s:%s", ioDatS(buf[:k]), errClass(err))
 }
 
-func (w *ioWorld) qSeek(name string, off, whence, n int) string {
+func (w *ioWorld) qSeek(name string, pre, off, whence, n int) string {
 	f, e, er := w.file(name)
 	if f == nil {
 		return er
@@ -712,10 +712,9 @@ func (w *ioWorld) qSeek(name string, off, whence, n int) string {
 		return "noseeker"
 	}
 	// move away from the start first, so that whence = 1 means something
-	pre := 0
-	if e != nil && len(e.data) > 2 {
-		pre = 2
-		f.Read(make([]byte, pre))
+	if pre > 0 {
+		k, _ := f.Read(make([]byte, pre))
+		pre = k
 	}
 	pos, serr := sk.Seek(int64(off), whence)
 	buf := make([]byte, n)
@@ -1135,7 +1134,7 @@ func (w *ioWorld) exec(q []string) (out string) {
 	case "readat":
 		return w.qReadAt(s(1), atoi(q[2]), atoi(q[3]))
 	case "seek":
-		return w.qSeek(s(1), atoi(q[2]), atoi(q[3]), atoi(q[4]))
+		return w.qSeek(s(1), atoi(q[2]), atoi(q[3]), atoi(q[4]), atoi(q[5]))
 	case "stat":
 		return w.qStat(s(1))
 	case "glob":
@@ -1418,9 +1417,9 @@ func ioQueries(r *Rng, vis ioVis, thorough bool) []string {
 		if r.Chance(1, 6) {
 			add("readat %s -1 1", h(p))
 		}
-		add("seek %s %d %d %d", h(p), r.Range(0, size+1), 0, r.Range(1, 4))
-		add("seek %s %d %d %d", h(p), r.Range(-3, 3), 1, r.Range(1, 4))
-		add("seek %s %d %d %d", h(p), -r.Range(0, size+1), 2, r.Range(1, 4))
+		add("seek %s 0 %d %d %d", h(p), r.Range(0, size+1), 0, r.Range(1, 4))
+		add("seek %s %d %d %d %d", h(p), r.Range(0, 3), r.Range(-3, 3), 1, r.Range(1, 4))
+		add("seek %s %d %d %d %d", h(p), r.Range(0, 2), -r.Range(0, size+1), 2, r.Range(1, 4))
 		if r.Chance(1, 4) {
 			add("readdir %s", h(p))
 			add("page %s 1,-1", h(p))
